@@ -8,17 +8,17 @@ use crate::json::Json;
 pub fn meta(_ctx: &Ctx) -> Meta {
     Meta {
         rule: "every shape (c,h,w) in {1..4}^3 plus (1,1,7),(5,1,2),(2,6,1); every ordered 3-D->3-D pair; vector(n)<->3-D for n in 0..=64 against every shape; seven large shapes (1024..3072 elements, tall / wide / square) against each other and their vectors; ops flatten/get_flat/get_triple/reshape and there-and-back; contents 0,1,2,.. (pairwise distinct). Non-trivial = a case with >=2 elements whose target nesting differs from the source nesting".into(),
-        bound: "extents <= 4 (plus three elongated shapes), vector lengths <= 64; complete within the bound".into(),
+        bound: "extents <= 4 (thorough 5) plus elongated and large shapes, vector lengths <= 64 (thorough 128); complete within the bound".into(),
         exhaustive: true,
         assumptions: vec!["vector->vector reshape and get_triple are only exercised with equal counts (the refusal clause names vector<->3-D and 3-D<->3-D)".into()],
     }
 }
 
-fn shapes() -> Vec<Dims> {
+fn shapes(max: usize) -> Vec<Dims> {
     let mut v = Vec::new();
-    for c in 1..=4 {
-        for h in 1..=4 {
-            for w in 1..=4 {
+    for c in 1..=max {
+        for h in 1..=max {
+            for w in 1..=max {
                 v.push(Dims::Chw(c, h, w));
             }
         }
@@ -124,15 +124,16 @@ pub fn check(case: &Kv, rep: &mut Report) {
     }
 }
 
-pub fn cases() -> Vec<Kv> {
-    let sh = shapes();
+pub fn cases(thorough: bool) -> Vec<Kv> {
+    let sh = shapes(if thorough { 5 } else { 4 });
+    let max_vec = if thorough { 128usize } else { 64usize };
     let mut out = Vec::new();
     for a in &sh {
         for b in &sh {
             out.push(Kv::new().put("from", a.name()).put("to", b.name()));
         }
     }
-    for n in 0..=64usize {
+    for n in 0..=max_vec {
         for b in &sh {
             out.push(Kv::new().put("from", Dims::Flat(n).name()).put("to", b.name()));
             if n > 0 {
@@ -156,8 +157,8 @@ pub fn cases() -> Vec<Kv> {
     out
 }
 
-pub fn run(_ctx: &Ctx) -> Report {
-    let cs = cases();
+pub fn run(ctx: &Ctx) -> Report {
+    let cs = cases(ctx.tier.thorough());
     let parts = par_map(&cs, |_, c| {
         let mut r = Report::new();
         check(c, &mut r);
